@@ -8,6 +8,7 @@ use std::f64::consts::PI;
 
 mod rng;
 mod c07;
+mod opw;
 mod json;
 
 pub struct Found {
@@ -55,6 +56,11 @@ fn search(prop: &str, seed: u64, obls: &[String]) -> Option<Found> {
     match prop {
         "C07" => c07::search(seed, obls, false),
         "C18" => c07::search(seed, obls, true),
+        "C01" => opw::search("c01", seed, 60000),
+        "C04" => opw::search("c04", seed, 60000),
+        "C05" => opw::search("c05", seed, 100000),
+        "C06" => opw::search("c06", seed, 60000),
+        "C08" => opw::search("c08", seed, 60000),
         _ => None,
     }
 }
@@ -62,6 +68,7 @@ fn search(prop: &str, seed: u64, obls: &[String]) -> Option<Found> {
 fn replay(prop: &str, kind: &str, case: &str) -> Option<Found> {
     match prop {
         "C07" | "C18" => c07::replay(kind, case),
+        "C01" | "C04" | "C05" | "C06" | "C08" => opw::replay(kind, case),
         _ => None,
     }
 }
